@@ -64,8 +64,16 @@ func VerifC16Env() {
 	case 2:
 		envAttr = []any{"K"}
 	}
+	second := map[string]any{"path": "two.env", "required": required2}
+	if !present2 && vrtChoice("file2Format", 2) == 1 {
+		// a declared format does not make a missing file less missing
+		second["format"] = "raw"
+		if vrtChoice("file2RequiredImplicit", 2) == 1 && required2 {
+			delete(second, "required")
+		}
+	}
 	mk := func(first string) map[string]any {
-		s := map[string]any{"image": "i", "env_file": []any{first, map[string]any{"path": "two.env", "required": required2}}}
+		s := map[string]any{"image": "i", "env_file": []any{first, second}}
 		if envAttr != nil {
 			s["environment"] = envAttr
 		}
